@@ -3,7 +3,11 @@
 // real applyFilter (+RemoveFullObject), real BindingContext values (kubernetes contexts
 // through the real ConvertKubeEventToBindingContext) and renders them with the real
 // ConvertBindingContextList(version, contexts).Json().  The expected jq values come from
-// /usr/bin/jq (independent oracle; the code under test uses gojq).
+// /usr/bin/jq (independent oracle; the code under test uses gojq), always asked about the object
+// exactly as it is handed to applyFilter / created in the cluster.  In a large share of the cases
+// the objects are shaped as an API server returns them (metadata.managedFields, uid,
+// resourceVersion, creationTimestamp, generation, last-applied annotation: serverFields) and the
+// jqFilter reads those fields directly or wholesale (metaFilters).
 package c09
 
 import (
@@ -481,7 +485,72 @@ func Render(in Input, obs *Obs, crash string) core.Case {
 	if in.Config != "" {
 		c.Tags = append(c.Tags, "via-real-config")
 	}
+	c.Tags = append(c.Tags, serverTags(in)...)
 	return c
+}
+
+// serverTags: how the objects of the case are shaped and whether a jqFilter reads what a server adds.
+func serverTags(in Input) []string {
+	reads := map[string]bool{}
+	for _, f := range metaFilters {
+		reads[f] = true
+	}
+	for _, f := range metaTriggerFilters {
+		reads[f] = true
+	}
+	served, plain, read, maxMgr := 0, 0, false, 0
+	visit := func(items []Item) {
+		for _, it := range items {
+			if it.Raw || it.Obj == nil {
+				continue
+			}
+			if !isServed(it.Obj) {
+				plain++
+				continue
+			}
+			served++
+			md, _ := it.Obj.(map[string]any)["metadata"].(map[string]any)
+			if mf, ok := md["managedFields"].([]any); ok && len(mf) > maxMgr {
+				maxMgr = len(mf)
+			}
+			if reads[it.Filter] {
+				read = true
+			}
+		}
+	}
+	if in.Flow != nil {
+		visit(in.Flow.Initial)
+	}
+	if in.Hook != nil {
+		for _, k := range in.Hook.Kube {
+			visit(k.Initial)
+		}
+	}
+	for _, c := range in.Ctxs {
+		if c.Op == "delete" {
+			continue
+		}
+		visit(c.Objects)
+		for _, sn := range c.Snapshots {
+			visit(sn.Items)
+		}
+	}
+	var tags []string
+	switch {
+	case served > 0 && plain > 0:
+		tags = append(tags, "objects:api-server-shaped", "objects:mixed-with-hand-built")
+	case served > 0:
+		tags = append(tags, "objects:api-server-shaped")
+	case plain > 0:
+		tags = append(tags, "objects:hand-built")
+	}
+	if served > 0 {
+		tags = append(tags, fmt.Sprintf("objects:managedFields-managers<=%d", maxMgr))
+	}
+	if read {
+		tags = append(tags, "jq-reads:server-fields")
+	}
+	return tags
 }
 
 // ---- the jq oracle (/usr/bin/jq) ----
@@ -621,6 +690,39 @@ var objectFilters = []string{
 	`{"a": {"b": [.spec.replicas, "x"]}, "n": null}`,
 	`.metadata.labels // {}`,
 	`.metadata`,
+	// what an API server adds to an object, read directly or wholesale (see metaFilters)
+	`{m: [.metadata.managedFields[]?.manager]}`,
+	`{meta: .metadata}`,
+	`{n: (.metadata.managedFields | length)}`,
+	`{rv: .metadata.resourceVersion, uid: .metadata.uid, gen: .metadata.generation}`,
+	`del(.spec)`,
+	`.metadata.annotations // {}`,
+	`.metadata.managedFields[0] // {}`,
+}
+
+// metaFilters: the object-valued filters whose result depends on the fields an API server adds to
+// every object (metadata.managedFields, uid, resourceVersion, creationTimestamp, generation,
+// annotations) - because they name them or because they take `.metadata` / the object wholesale.
+// On a hand-built object they say nothing; the generator prefers them when the objects of a case are
+// shaped as an API server returns them (gen.served).
+var metaFilters = []string{
+	`.`,
+	`.metadata`,
+	`{m: [.metadata.managedFields[]?.manager]}`,
+	`{meta: .metadata}`,
+	`{n: (.metadata.managedFields | length)}`,
+	`{rv: .metadata.resourceVersion, uid: .metadata.uid, gen: .metadata.generation}`,
+	`del(.spec)`,
+	`.metadata.annotations // {}`,
+	`.metadata.managedFields[0] // {}`,
+}
+
+// the same among the filters whose result is not one object (finding F8)
+var metaTriggerFilters = []string{
+	`.metadata.managedFields`,
+	`.metadata.managedFields | length`,
+	`.metadata.managedFields[]?`,
+	`.metadata.uid`,
 }
 
 // filters whose result is a scalar, an array, null, nothing or several values (finding F8)
@@ -633,10 +735,100 @@ var triggerFilters = []string{
 	`.metadata, .spec`,
 	`.metadata.labels.app == "a"`,
 	`.spec.containers[]?`,
-	`.metadata.labels`, // an object when the object has labels, null otherwise
+	`.metadata.labels`,                 // an object when the object has labels, null otherwise
+	`.metadata.managedFields`,          // an array on an API-server-shaped object, null otherwise
+	`.metadata.managedFields | length`, // a number
+	`.metadata.managedFields[]?`,       // one object per manager: nothing, one object (no trigger) or several (merged)
+	`.metadata.uid`,
 }
 
-type gen struct{ r *core.Rng }
+// served: the objects of the case under construction are shaped as an API server returns them
+// (serve), and filters that read those fields are preferred.
+type gen struct {
+	r      *core.Rng
+	served bool
+}
+
+// ---- objects as an API server returns them ----
+// Every object read from a real API server carries metadata.uid, resourceVersion, creationTimestamp,
+// (generation,) managedFields - one entry per field manager - and, after `kubectl apply`, the
+// last-applied-configuration annotation.  The fake cluster adds none of them; the generator does.
+
+var fieldManagers = []string{"kubectl-client-side-apply", "helm", "kube-controller-manager", "deckhouse-controller"}
+
+var fieldSets = []map[string]any{
+	{"f:data": map[string]any{".": map[string]any{}, "f:foo": map[string]any{}}},
+	{"f:metadata": map[string]any{"f:labels": map[string]any{".": map[string]any{}, "f:app": map[string]any{}}}},
+	{"f:spec": map[string]any{"f:replicas": map[string]any{}}},
+}
+
+func uidFor(ns, name string) string {
+	h := uint32(2166136261)
+	for _, c := range []byte(ns + "/" + name) {
+		h = (h ^ uint32(c)) * 16777619
+	}
+	return fmt.Sprintf("%08x-3f0b-4a59-9d53-0e2f5a7c8b11", h)
+}
+
+func managedEntry(manager, operation, day string, fields map[string]any) map[string]any {
+	return map[string]any{"manager": manager, "operation": operation, "apiVersion": "v1",
+		"time": "2024-05-" + day + "T10:00:00Z", "fieldsType": "FieldsV1", "fieldsV1": fields}
+}
+
+// serverFields adds what an API server adds to the metadata of o (nmgr field managers).
+func serverFields(o map[string]any, nmgr int, rv int, lastApplied bool, pickMgr func(int) int) {
+	meta, _ := o["metadata"].(map[string]any)
+	if meta == nil {
+		meta = map[string]any{}
+		o["metadata"] = meta
+	}
+	ns, _ := meta["namespace"].(string)
+	name, _ := meta["name"].(string)
+	meta["uid"] = uidFor(ns, name)
+	meta["resourceVersion"] = fmt.Sprint(rv)
+	meta["creationTimestamp"] = "2024-05-01T10:00:00Z"
+	meta["generation"] = 1 + rv%3
+	mf := []any{}
+	for i := 0; i < nmgr; i++ {
+		k := pickMgr(i)
+		e := managedEntry(fieldManagers[k%len(fieldManagers)], []string{"Update", "Apply"}[k%2], fmt.Sprintf("%02d", 1+k%9), fieldSets[k%len(fieldSets)])
+		if k%5 == 0 {
+			e["subresource"] = "status"
+		}
+		mf = append(mf, e)
+	}
+	meta["managedFields"] = mf
+	if lastApplied {
+		ann, _ := meta["annotations"].(map[string]any)
+		if ann == nil {
+			ann = map[string]any{}
+			meta["annotations"] = ann
+		}
+		ann["kubectl.kubernetes.io/last-applied-configuration"] =
+			fmt.Sprintf("{\"apiVersion\":\"v1\",\"kind\":\"ConfigMap\",\"metadata\":{\"annotations\":{},\"name\":%q}}\n", name)
+	}
+}
+
+// plainObj: a hand-built object whatever the case (review payloads, hand-built structs).
+func (g *gen) plainObj() map[string]any {
+	was := g.served
+	g.served = false
+	o := g.obj()
+	g.served = was
+	return o
+}
+
+func (g *gen) serve(o map[string]any) {
+	nmgr := []int{1, 1, 1, 2, 2, 3}[g.r.Intn(6)]
+	serverFields(o, nmgr, 40000+g.r.Intn(9000), g.r.Chance(30), func(int) int { return g.r.Intn(20) })
+}
+
+func isServed(obj any) bool {
+	m, _ := obj.(map[string]any)
+	md, _ := m["metadata"].(map[string]any)
+	_, ok := md["managedFields"]
+	return ok
+}
 
 func (g *gen) pick(xs []string) string { return xs[g.r.Intn(len(xs))] }
 
@@ -666,6 +858,9 @@ func (g *gen) obj() map[string]any {
 	if g.r.Chance(50) {
 		o["apiVersion"] = "v1"
 	}
+	if g.served && !g.r.Chance(12) {
+		g.serve(o)
+	}
 	return o
 }
 
@@ -677,11 +872,21 @@ type opts struct {
 func (g *gen) opts(triggerPct int, keepFalsePct int) opts {
 	o := opts{keep: !g.r.Chance(keepFalsePct)}
 	k := g.r.Intn(100)
+	objPct := 45
+	if g.served {
+		objPct = 70 // API-server-shaped objects: mostly with a jqFilter, mostly one that reads what the server added
+	}
 	switch {
 	case k < triggerPct:
 		o.filter = g.pick(triggerFilters)
-	case k < triggerPct+45:
+		if g.served && g.r.Chance(50) {
+			o.filter = g.pick(metaTriggerFilters)
+		}
+	case k < triggerPct+objPct:
 		o.filter = g.pick(objectFilters)
+		if g.served && g.r.Chance(70) {
+			o.filter = g.pick(metaFilters)
+		}
 	}
 	return o
 }
@@ -738,7 +943,7 @@ func (g *gen) ctx(kind string, v0 bool, triggerPct int, nsnap int) Ctx {
 			c.From, c.To = "unstable.crontab.io/v1beta1", "stable.example.com/v1"
 		}
 		for i := g.r.Intn(3); i > 0; i-- {
-			c.Review.Objects = append(c.Review.Objects, g.obj())
+			c.Review.Objects = append(c.Review.Objects, g.plainObj())
 		}
 	}
 	switch kind {
@@ -817,7 +1022,7 @@ var rawStrings = []string{`{"spec":"asd"}`, ``, `null`, `{bad`, `3`, `"s"`, `[1,
 // rawItem: a hand-built ObjectAndFilterResult (string filter results as the repo's tests build
 // them, FilterFunc-like values, nil objects).  needObj: the object must be present (v0 reads it).
 func (g *gen) rawItem(needObj bool) Item {
-	it := Item{Raw: true, Obj: g.obj(), RawRemove: g.r.Chance(30)}
+	it := Item{Raw: true, Obj: g.plainObj(), RawRemove: g.r.Chance(30)}
 	if g.r.Chance(60) {
 		it.Filter = ".spec"
 	}
@@ -895,6 +1100,13 @@ func pod(name string, labels map[string]any, replicas int) map[string]any {
 	return map[string]any{"apiVersion": "v1", "kind": "Pod", "metadata": meta, "spec": map[string]any{"replicas": replicas}}
 }
 
+// servedPod: pod(...) as an API server returns it, with nmgr field managers.
+func servedPod(name string, labels map[string]any, replicas, nmgr int) map[string]any {
+	o := pod(name, labels, replicas)
+	serverFields(o, nmgr, 48213+nmgr, nmgr > 1, func(i int) int { return i })
+	return o
+}
+
 // Corpus: reproduction witnesses and the documentation's examples; runs first.
 func Corpus() []core.In[Input] {
 	lbl := map[string]any{"app": "proxy", "pod-template-hash": "cfdbfcbb8"}
@@ -935,6 +1147,13 @@ func Corpus() []core.In[Input] {
 		mk("corpus", Input{Version: "v1", Ctxs: []Ctx{{Kind: "group-event", BType: "kubernetes", Binding: "monitor-pods", JqFilter: ".metadata.labels", Group: "pods", Type: "Event", WatchEvent: "Added",
 			Objects: []Item{{Obj: pod("p", lbl, 1), Filter: ".metadata.labels", Keep: true}}, Incl: []string{"configmap-content", "monitor-pods"},
 			Snapshots: []Snap{{Name: "monitor-pods", Items: []Item{{Obj: pod("p", lbl, 1), Filter: ".metadata.labels", Keep: true}}}, {Name: "configmap-content", Items: []Item{}}}, Via: true}}}),
+		// objects as an API server returns them, a jqFilter that reads what the server added: the filter result
+		// must be jq's answer for the object shown as `object` (applyFilter -> jq.ApplyFilter runs jq on a copy)
+		mk("corpus", Input{Version: "v1", Ctxs: []Ctx{event(`{m: [.metadata.managedFields[]?.manager]}`, true, servedPod("pod-321d12", lbl, 1, 2))}}),
+		mk("corpus", Input{Version: "v1", Ctxs: []Ctx{event(`{meta: .metadata}`, false, servedPod("pod-321d12", lbl, 1, 1))}}),
+		mk("corpus", Input{Version: "v1", Ctxs: []Ctx{{Kind: "sync", BType: "kubernetes", Binding: "monitor-pods", JqFilter: ".", Type: "Synchronization",
+			Objects: []Item{{Obj: servedPod("etcd", lbl, 1, 3), Filter: ".", Keep: true}, {Obj: pod("kube-proxy", nil, 2), Filter: ".", Keep: true}},
+			Incl:    []string{"cms"}, Snapshots: []Snap{{Name: "cms", Items: []Item{{Obj: servedPod("settings", nil, 0, 1), Filter: ".metadata", Keep: false}}}}, Via: true}}}),
 		// F8 (recorded finding of C08): a scalar jq result is stored as {}
 		mk("trigger", Input{Version: "v1", Ctxs: []Ctx{event(".spec.replicas", true, pod("p", lbl, 3))}}),
 	}
@@ -954,6 +1173,11 @@ func Gen(r *core.Rng, tier string) ([]core.In[Input], bool) {
 	for i := 0; i < n; i++ {
 		v0 := g.r.Chance(15)
 		nctx := 1 + g.r.Intn(4)
+		// objects as an API server returns them in one input out of five (fewer contexts: they are large)
+		g.served = g.r.Chance(20)
+		if g.served && nctx > 2 {
+			nctx = 2
+		}
 		switch {
 		case i%10 == 9: // trigger stream: jq results that are not a single object (F8)
 			in, _ := g.input(false, nctx, 60, 0)
@@ -966,6 +1190,7 @@ func Gen(r *core.Rng, tier string) ([]core.In[Input], bool) {
 			ins = append(ins, core.In[Input]{Input: in, Stream: st})
 		}
 	}
+	g.served = false
 	// flow cases: the contexts come out of the real informer path (see flow.go)
 	nflow := 110
 	switch tier {
@@ -979,8 +1204,11 @@ func Gen(r *core.Rng, tier string) ([]core.In[Input], bool) {
 		if i%10 == 9 {
 			triggerPct = 60
 		}
+		// the cluster of every second case is a real one: its objects carry what an API server adds
+		g.served = i%2 == 1
 		ins = append(ins, core.In[Input]{Input: g.flow(triggerPct), Stream: "flow"})
 	}
+	g.served = false
 	// hook cases: one combined array of a hook whose bindings of different types share names (see hook.go)
 	nhook := 100
 	switch tier {
@@ -994,8 +1222,10 @@ func Gen(r *core.Rng, tier string) ([]core.In[Input], bool) {
 		if i%10 == 9 {
 			triggerPct = 60
 		}
+		g.served = i%2 == 1
 		ins = append(ins, core.In[Input]{Input: g.hook(triggerPct), Stream: "hook"})
 	}
+	g.served = false
 	// low-rate trigger streams of the recorded findings F30 (two bindings of one type share a name) and
 	// F31 (a validating and a mutating binding share a name); the ordinary hook stream never produces them
 	ndup := 6
@@ -1011,6 +1241,7 @@ func Gen(r *core.Rng, tier string) ([]core.In[Input], bool) {
 	}
 	if tier == "thorough" || tier == "search" {
 		ins = append(ins, flowExhaustive()...)
+		ins = append(ins, flowServedExhaustive()...)
 		ins = append(ins, hookExhaustive()...)
 		ins = append(ins, hookConvExhaustive()...)
 	}
@@ -1057,6 +1288,6 @@ func Gen(r *core.Rng, tier string) ([]core.In[Input], bool) {
 
 var Driver = core.Driver[Input, Obs]{
 	Spec: core.Spec{Property: "C09", Imports: []string{"Json", "C09_Model", "C09_Spec", "C09_Corr"}, Corr: "C09_Corr", Triggers: []string{"F8", "F30", "F31"}, ShrinkKey: "ctxs",
-		Rule: "lists of 1-4 binding contexts rendered by ConvertBindingContextList(version,ctxs).Json(); objects go through the real applyFilter(+RemoveFullObject), kubernetes contexts through ConvertKubeEventToBindingContext; expected jq values from /usr/bin/jq; streams: corpus (F3/F15 witnesses, doc examples, legacy string filter results), random (documented kinds x options), trigger (jq results that are not one object, F8), malformed (undocumented struct states: model agreement only), exhaustive (thorough: kind x jqFilter x keepFull x snapshots x version), flow (one kubernetes binding on a fake cluster: the files of the real informer path), hook (a hook with kubernetes and schedule/validating/mutating/conversion bindings that share names across the binding types and include different snapshots: ONE combined array rendered as Hook.Run does, namesakes in both orders; conversion bindings with 1-4 rules, several bindings per CRD, a request per rule), trigger-F30 / trigger-F31 (hooks in which two bindings of one type, or a validating and a mutating binding, share a name: recorded findings); non-trivial = some context carries objects, snapshots or a review; distinct = distinct input JSON"},
-	Gen: Gen, Run: Run, Render: Render, PerShard: 40, Workers: 8, CaseTimout: 20 * time.Second,
+		Rule: "lists of 1-4 binding contexts rendered by ConvertBindingContextList(version,ctxs).Json(); objects go through the real applyFilter(+RemoveFullObject), kubernetes contexts through ConvertKubeEventToBindingContext; expected jq values from /usr/bin/jq; streams: corpus (F3/F15 witnesses, doc examples, legacy string filter results), random (documented kinds x options), trigger (jq results that are not one object, F8), malformed (undocumented struct states: model agreement only), exhaustive (thorough: kind x jqFilter x keepFull x snapshots x version), flow (one kubernetes binding on a fake cluster: the files of the real informer path), hook (a hook with kubernetes and schedule/validating/mutating/conversion bindings that share names across the binding types and include different snapshots: ONE combined array rendered as Hook.Run does, namesakes in both orders; conversion bindings with 1-4 rules, several bindings per CRD, a request per rule), in every second flow / hook case and every fifth list the objects are shaped as an API server returns them (metadata.managedFields with 1-3 managers, uid, resourceVersion, creationTimestamp, generation, sometimes the last-applied annotation; tags objects:api-server-shaped / jq-reads:server-fields) and the jqFilter mostly reads those fields (`.`, `.metadata`, `{m: [.metadata.managedFields[]?.manager]}`, ...): /usr/bin/jq answers for the object as created in the cluster, the model runs jq on ApplyFilter's deep copy of it; trigger-F30 / trigger-F31 (hooks in which two bindings of one type, or a validating and a mutating binding, share a name: recorded findings); non-trivial = some context carries objects, snapshots or a review; distinct = distinct input JSON"},
+	Gen: Gen, Run: Run, Render: Render, PerShard: 20, Workers: 8, CaseTimout: 20 * time.Second,
 }
